@@ -233,6 +233,21 @@ def defaultName {κ : Type} (scheme : NameScheme) (str repr : κ → List Nat) (
   | .plainStr => str k ++ [46, 112]
   | .quotedRepr => pctEncode (repr k) ++ [46, 112]
 
+/-- ASCII decimal digits of a number (`str(os.getpid())` inside the f-string) -/
+def decDigits (n : Nat) : List Nat := (Nat.toDigits 10 n).map Char.toNat
+
+/-- the temporary sibling `_pickle_save` writes to: `file.with_name(f"{file.name}<sep>{os.getpid()}<suffix>")`;
+`sep` and `suffix` are read from the source by the translator -/
+def tmpName (sep suffix final : List Nat) (pid : Nat) : List Nat := final ++ sep ++ decDigits pid ++ suffix
+
+/-- a file name that cannot leave the cache directory or be cut short: no `/`, `\`, NUL -/
+def pathSafe (name : List Nat) : Bool := name.all fun b => b != 47 && b != 92 && b != 0
+
+/-- what the translator checks about the temporary name's constant parts: the suffix does not end in `.p` (so no
+temporary name is some key's result file) and neither part holds a path separator -/
+def tmpPartsOk (sep suffix : List Nat) : Bool :=
+  decide (2 ≤ suffix.length) && (suffix.reverse.take 2 != [112, 46]) && pathSafe sep && pathSafe suffix
+
 /-- `parallelise(fn, inputs, cache=cache)` as shipped: with `checks = true` a cache is refused (`none`, the
 `ValueError`) when two inputs share a key -/
 def parallelise {κ α β : Type} [DecidableEq κ] (checks : Bool) (mode : SaveMode) (size : β → Nat) (fn : α → β)
